@@ -28,7 +28,7 @@ RULE = ("cases = (system, FFT grid, formula, degen_thresh, degen_Kramers); each 
         "mechanism) for mechanisms actually exercised: 'partial' (some but not all groups occupied at some level), "
         "'multiband_group' (a group of >=2 bands changes occupation inside the Fermi grid), 'below_window' (a group lies "
         "below EFmin and is completed), 'surface' (a finite difference is non-zero), 'select' (a partially selected group "
-        "contributes); 'history' cases: every ordered sequence (depth 2 quick / 3 thorough) over a 14-letter alphabet of "
+        "contributes); 'history' cases: every ordered sequence (depth 2 quick / 3 thorough) over a 24-letter alphabet of "
         "calculators (sea/surface x grids engineered so that EFmin/EFmax of a sea scan equal those of a surface scan, band "
         "selection, k_resolved, hole_like, tetra with identical / nearby / other Fermi arrays and thresholds) is evaluated on ONE "
         "shared Data_K object and the last result must equal the same calculator on a fresh Data_K")
@@ -73,15 +73,19 @@ def cases(tier, seed):
     yield from history_cases(tier)
 
 
+N_HISTORY_LETTERS = 24
+
+
 def history_cases(tier):
     """'history' cases: a Data_K object is shared by all calculators of a K-point in run(); the result of a calculator
     must not depend on which other calculators were evaluated on the same Data_K before it (caches with incomplete keys)"""
     quick = tier == "quick"
-    for system in (("zoo3", "dbl4") if quick else SYSTEMS_Q):
-        for formula in (("Identity", "Omega") if quick else ("Identity", "Omega", "Morb_Hpm")):
+    for system in (("zoo3",) if quick else ("zoo3", "dbl4", "zoo4")):
+        for formula in (("Identity",) if quick else ("Identity", "Morb_Hpm")):
             for thr in (-1, 0.5):
-                yield {"kind": "history", "system": system, "grid": [2, 2, 2], "formula": formula, "thresh": thr,
-                       "depth": 2 if quick else 3}
+                for first in range(N_HISTORY_LETTERS):      # sharded by the first calculator of the sequence
+                    yield {"kind": "history", "system": system, "grid": [2, 2, 2], "formula": formula, "thresh": thr,
+                           "depth": 2 if quick else 3, "first": first}
 
 
 # ---------------------------------------------------------------------------------------------- systems
@@ -311,12 +315,34 @@ def run_history(case, seed):
         "tetra_sea(G*(1+3e-6))": lambda: mk(0, G * (1 + 3e-6), tetra=True),
         "tetra_sea(G,thr2)": lambda: StaticCalculator(Efermi=G, Formula=Formula, fder=0, kwargs_formula=dict(kw), degen_thresh=0.05, tetra=True),
     }
+    # other calculator families that share the Data_K caches (Berry connection with/without external terms, band
+    # derivatives, tabulators with other thresholds, a dynamic calculator): systems 'zoo3' and 'dbl4' carry AA
+    from wannierberri.formula import covariant as frml
+    from wannierberri.calculators import tabulate, dynamic
+
+    def mkf(F, fder, kwf, **kwargs):
+        return StaticCalculator(Efermi=np.array(G), Formula=F, fder=fder, kwargs_formula=dict(kwf), degen_thresh=thr, **kwargs)
+    alphabet.update({
+        "sea(G,Omega,int)": lambda: mkf(frml.Omega, 0, {"external_terms": False}),
+        "sea(G,Omega,ext)": lambda: mkf(frml.Omega, 0, {"external_terms": True}),
+        "surf1(G,Omega,ext)": lambda: mkf(frml.Omega, 1, {"external_terms": True}),
+        "sea(G,DerOmega,ext)": lambda: mkf(frml.DerOmega, 0, {"external_terms": True}),
+        "tab(Berry,int)": lambda: tabulate.BerryCurvature(kwargs_formula={"external_terms": False}, degen_thresh=1e-4),
+        "tab(Berry,ext,thr)": lambda: tabulate.BerryCurvature(kwargs_formula={"external_terms": True}, degen_thresh=0.5),
+        "tab(Velocity)": lambda: tabulate.Velocity(degen_thresh=0.05),
+        "JDOS": lambda: dynamic.JDOS(Efermi=np.array(G), omega=np.linspace(0.0, 1.0, 5)),
+        "OptCond": lambda: dynamic.OpticalConductivity(Efermi=np.array(G), omega=np.linspace(0.0, 1.0, 5), smr_fixed_width=0.1),
+    })
     names = list(alphabet)
+    assert len(names) == N_HISTORY_LETTERS
     fresh = {}
-    for nm in names:
-        fresh[nm] = np.array(alphabet[nm]()(make_data_K(system, case["grid"])).data)
+
+    def fresh_of(nm):
+        if nm not in fresh:
+            fresh[nm] = np.array(alphabet[nm]()(make_data_K(system, case["grid"])).data)
+        return fresh[nm]
     nseq = 0
-    for seq in itertools.product(names, repeat=case["depth"]):
+    for seq in itertools.product([names[case["first"]]], *([names] * (case["depth"] - 1))):
         if case["depth"] == 3 and len(set(seq)) < 3:
             continue
         dK = make_data_K(system, case["grid"])
@@ -324,7 +350,7 @@ def run_history(case, seed):
         for nm in seq:
             out = np.array(alphabet[nm]()(dK).data)
         nseq += 1
-        ref = fresh[seq[-1]]
+        ref = fresh_of(seq[-1])
         sc = max(np.abs(ref).max(), 1e-300)
         if out.shape != ref.shape or not np.abs(out - ref).max() <= 1e-12 * sc:
             err = np.abs(out - ref).max() / sc if out.shape == ref.shape else np.inf
